@@ -307,3 +307,12 @@ def r6(ctx):
     esc = [t for t in b.calls(r'regex::escape$')] + [c for c in closures_in(ctx, b) for t in c.calls(r'regex::escape$')]
     ctx.require(bool(esc), b, 'matcher-escaped', 'the alternatives of the special-token regex are the escaped token strings (regex::escape)',
                 'no regex::escape call on the way to the special-token regex: a token containing a regex metacharacter matches other text')
+
+
+@rule('C01', 'R-C01-7', 'prerequisite (the segmentation primitive)',
+      'CharString::new segments by graphemes(true) / chars() selected by the flag alone, grapheme segmentation happens in src/unicode.rs only, '
+      'and chars() / get_char / byte_start_end / Character::code_points agree with the stored cluster lengths (R-C11-6 re-evaluated): '
+      '"one id per character" and "one group per character" count these characters')
+def r7(ctx):
+    from rules import c11
+    c11.charstring_primitive(ctx)
